@@ -1,5 +1,6 @@
 import SJ.Proofs.Utf8
 import SJ.Spec.Grammar
+import SJ.Proofs.Sound.Str
 /-!
 # Escape-decoding a well-formed UTF-8 string literal yields well-formed UTF-8
 
